@@ -11,14 +11,18 @@
 (***************************************************************************)
 EXTENDS MC_Twin, Json, IOUtils, TLCExt
 
+\* see MC_Twin!FieldOrderPin: this module is the root when behaviours are generated, so the order is pinned here too
+GenFieldOrderPin == [k |-> 0, x |-> 0]
+
 VARIABLE ops
-gvars == <<S, wl, out, allok, prevok, tracked, nodisp, S0, chk, depth, cfg, ops>>
+gvars == <<S, wl, out, allok, prevok, tracked, nodisp, S0, chk, depth, cfg, lim, ops>>
 
 GInit == Init /\ ops = <<>> /\ TLCSet(7, <<>>)
 GNext == /\ depth < MaxDepth
          /\ \/ \E o \in Ops : Do(o) /\ ops' = Append(ops, [op |-> o, out |-> out', vol |-> S'.vol])
             \/ \E c \in Cfgs : SetCfg(c) /\ ops' = Append(ops, [op |-> [op |-> "setconfig", maxv |-> c.wlmax, autosplit |-> c.autosplit],
                                                                  out |-> "ok", vol |-> S.vol])
+            \/ \E lm \in Lims : SetLim(lm) /\ ops' = Append(ops, [op |-> [op |-> "setlimits", lims |-> lm], out |-> "ok", vol |-> S.vol])
 
 \* collect every maximal behaviour once (evaluated as a state constraint: TRUE for all states)
 Collect == IF depth = MaxDepth THEN TLCSet(7, Append(TLCGet(7), [init |-> S0.vol, ops |-> ops])) ELSE TRUE
